@@ -437,6 +437,32 @@ func main() {
 	for i := 0; i < mc.Pick(r, 3, 9); i++ {
 		blinds = append(blinds, mc.Fill(r.Seed, fmt.Sprintf("c15-blind-%d", i), 32))
 	}
+	// blinds found by search whose blinding scalar r (nil context), or whose inverse 1/r mod L, has
+	// leading zero bytes (r < 2^240 / 1/r < 2^240: one blind in 4096 each): the boundary values of the
+	// scalar encodings that blinding and unblinding go through
+	{
+		lim := new(big.Int).Lsh(big.NewInt(1), 240)
+		found := [2]bool{}
+		for i := 0; i < 1<<17 && !(found[0] && found[1]); i++ {
+			b := mc.Fill(r.Seed, fmt.Sprintf("c15-search-blind-%d", i), 32)
+			rr := refScalar(b, nil)
+			if rr.Sign() == 0 {
+				continue
+			}
+			if !found[0] && rr.Cmp(lim) < 0 {
+				found[0] = true
+				blinds = append(blinds, b)
+			}
+			if inv := new(big.Int).ModInverse(rr, edref.L); !found[1] && inv != nil && inv.Cmp(lim) < 0 {
+				found[1] = true
+				blinds = append(blinds, b)
+			}
+		}
+		if !found[0] || !found[1] {
+			r.Note("search for a blind with a short scalar / short inverse failed")
+			r.NotExhaustive("blind search failed")
+		}
+	}
 	ctxs := []Ctx{{Nil: true}, {Hex: ""}, {Hex: "00"}, {Hex: "41"},
 		{Hex: hx(mc.Fill(r.Seed, "c15-ctx-32", 32))}, {Hex: hx(mc.Fill(r.Seed, "c15-ctx-200", 200))}}
 	if th {
@@ -517,7 +543,7 @@ func main() {
 	}
 
 	r.SetRule("tuples: key seed x blind x context, each with every message (blinded key vs reference, unblinding, signature determinism, acceptance by crypto/ed25519.Verify, this package's Verify and a math/big RFC 8032 verifier under the blinded key, rejection under the original key); pairs: key seed x every ordered pair of (blind, context) combinations incl. identical ones (commutativity, doubly blinded key vs reference, separation); finally every unordered pair of tuples of one seed is compared for key separation. Alphabets hold no duplicates, so cases are distinct by construction. Non-trivial: every case (all run the full blinding arithmetic)")
-	r.Assume("seeds, blinds, contexts and messages come from fixed alphabets of representatives (boundary byte patterns plus DRBG filler selected by VERIF_SEED), not from the full 2^256 spaces",
+	r.Assume("seeds, blinds, contexts and messages come from fixed alphabets of representatives (boundary byte patterns, DRBG filler selected by VERIF_SEED, two blinds found by search whose scalar / inverse scalar is below 2^240), not from the full 2^256 spaces",
 		"blinds are exactly 32 bytes and are handed over as fresh exact-capacity slices (other lengths panic by contract; aliasing of spare capacity is property C16)",
 		"references: SHA-512 from the standard library, scalar and curve arithmetic over math/big (checks/edref), crypto/ed25519.Verify of go1.23.5",
 		"'different blind or context => different key' is demanded whenever the reference scalars differ mod L (a SHA-512 collision mod L is the only exception and does not occur in the alphabet)")
